@@ -174,6 +174,7 @@ func runC04R3(c *Ctx, r *Rep) {
 		}
 		r.analysed(id)
 		p := c.MustPkg(rc.fn[0])
+		fd = c.Expand(p, fd) // raise sites moved into helpers of the binder belong to it
 		// string constants reaching ExceptionNewf(TypeError, fmt, …) in this function (directly or through a local const)
 		var msgs []string
 		ast.Inspect(fd.Body, func(n ast.Node) bool {
@@ -210,7 +211,7 @@ func runC04R3(c *Ctx, r *Rep) {
 }
 
 func runC04R4(c *Ctx, r *Rep) {
-	fd := c.FuncDecl("vm", "EvalCode")
+	fd := c.FuncDeclX("vm", "EvalCode")
 	if fd == nil || fd.Body == nil {
 		r.undecided("kwsearch|vm.EvalCode", token.NoPos, "anchor function not found")
 		return
